@@ -14,6 +14,8 @@ namespace Compmech.Asm
 
 variable {K : Type} [Field K]
 
+set_option linter.unusedSectionVars false
+
 /-! ### COO semantics -/
 
 @[simp] theorem toFun_nil (i j : Nat) : toFun ([] : Coo K) i j = 0 := rfl
@@ -385,8 +387,8 @@ theorem placedAt_support (s n : Nat) (l : Coo K) (h : Within n n l) (i j : Nat)
   have := Block.fn_support (⟨0, s, s, l⟩ : Block K) h i j hij
   exact this
 
-/-- where `get_k0_conn` writes the three blocks of a connection -/
 omit [Field K] in
+/-- where `get_k0_conn` writes the three blocks of a connection -/
 theorem conn_blocks_aux (ps : List (Nat × Nat)) (c : Conn K) (h1 : c.p1 < ps.length) (h2 : c.p2 < ps.length) :
     connBlocks (init ps) c =
       [⟨tagC11, startOf (panelSizes ps) c.p1, startOf (panelSizes ps) c.p1, c.k11⟩,
@@ -397,8 +399,8 @@ theorem conn_blocks_aux (ps : List (Nat × Nat)) (c : Conn K) (h1 : c.p1 < ps.le
   unfold connBlocks
   simp only [init_getD ps _ h1, init_getD ps _ h2, gt_iff_lt]
 
-/-- the coupling block always lands on or above the block diagonal, whatever the order of the panels -/
 omit [Field K] in
+/-- the coupling block always lands on or above the block diagonal, whatever the order of the panels -/
 theorem conn12_upper_aux (ps : List (Nat × Nat)) (c : Conn K) :
     ∀ b ∈ connBlocks (init ps) c, b.tag = tagC12 → b.row0 ≤ b.col0 := by
   intro b hb ht
@@ -410,6 +412,58 @@ theorem conn12_upper_aux (ps : List (Nat × Nat)) (c : Conn K) :
     · simp only; omega
     · simp only; omega
   · simp [tagC22, tagC12] at ht
+
+omit [Field K] in
+theorem range_unique (sizes : List Nat) (a b x : Nat) (ha : a < sizes.length) (hb : b < sizes.length)
+    (hxa : startOf sizes a ≤ x ∧ x < startOf sizes a + sizes[a])
+    (hxb : startOf sizes b ≤ x ∧ x < startOf sizes b + sizes[b]) : a = b := by
+  have ht := (ranges_tile_general sizes).2.2.2
+  rcases Nat.lt_trichotomy a b with h | h | h
+  · have := ht a b hb h; omega
+  · exact h
+  · have := ht b a ha h; omega
+
+/-- without connections the assembled matrix is block diagonal: an entry whose row lies in the range of panel `p`
+and whose column lies in the range of another panel `q` is zero -/
+theorem assembly_block_diagonal_aux (ps : List (Nat × Nat)) (comps : List (Coo K))
+    (h : comps.length = ps.length)
+    (hw : ∀ k (hk : k < ps.length), Within (3 * ps[k].1 * ps[k].2) (3 * ps[k].1 * ps[k].2) (comps.getD k []))
+    (p q : Nat) (hp : p < ps.length) (hq : q < ps.length) (hpq : p ≠ q) (i j : Nat)
+    (hi : startOf (panelSizes ps) p ≤ i ∧ i < startOf (panelSizes ps) p + 3 * ps[p].1 * ps[p].2)
+    (hj : startOf (panelSizes ps) q ≤ j ∧ j < startOf (panelSizes ps) q + 3 * ps[q].1 * ps[q].2) :
+    toFun (calcNoConn true ps comps) i j = 0 := by
+  have hl := panelSizes_length ps
+  have hsz : ∀ k (hk : k < ps.length), (panelSizes ps)[k]'(by omega) = 3 * ps[k].1 * ps[k].2 := by
+    intro k hk; simp [panelSizes]
+  have key : ∀ k, k < ps.length → ∀ x y,
+      (startOf (panelSizes ps) p ≤ x ∧ x < startOf (panelSizes ps) p + 3 * ps[p].1 * ps[p].2) →
+      (startOf (panelSizes ps) q ≤ y ∧ y < startOf (panelSizes ps) q + 3 * ps[q].1 * ps[q].2) →
+      placedAt (startOf (panelSizes ps) k) (startOf (panelSizes ps) k) (comps.getD k []) x y = 0 ∧
+      placedAt (startOf (panelSizes ps) k) (startOf (panelSizes ps) k) (comps.getD k []) y x = 0 := by
+    intro k hk x y hx hy
+    have hne : ¬ ((startOf (panelSizes ps) k ≤ x ∧ x < startOf (panelSizes ps) k + 3 * ps[k].1 * ps[k].2) ∧
+        (startOf (panelSizes ps) k ≤ y ∧ y < startOf (panelSizes ps) k + 3 * ps[k].1 * ps[k].2)) := by
+      rintro ⟨h1, h2⟩
+      have e1 : k = p := range_unique (panelSizes ps) k p x (by omega) (by omega)
+        (by rw [hsz k hk]; exact h1) (by rw [hsz p hp]; exact hx)
+      have e2 : k = q := range_unique (panelSizes ps) k q y (by omega) (by omega)
+        (by rw [hsz k hk]; exact h2) (by rw [hsz q hq]; exact hy)
+      exact hpq (e1.symm.trans e2)
+    constructor
+    · apply placedAt_support _ _ _ (hw k hk)
+      intro hc; exact hne ⟨⟨hc.1, hc.2.1⟩, ⟨hc.2.2.1, hc.2.2.2⟩⟩
+    · apply placedAt_support _ _ _ (hw k hk)
+      intro hc; exact hne ⟨⟨hc.2.2.1, hc.2.2.2⟩, ⟨hc.1, hc.2.1⟩⟩
+  rw [assembly_noconn_eq_sum_of_placed_aux ps comps h]
+  split
+  · apply List.sum_eq_zero
+    intro v hv
+    obtain ⟨k, hk, rfl⟩ := List.mem_map.mp hv
+    exact (key k (by simpa using hk) i j hi hj).1
+  · apply List.sum_eq_zero
+    intro v hv
+    obtain ⟨k, hk, rfl⟩ := List.mem_map.mp hv
+    exact (key k (by simpa using hk) i j hi hj).2
 
 /-! ### force vectors -/
 
@@ -508,5 +562,400 @@ theorem flatten_piece (vs : List (List K)) (k t : Nat) (hk : k < vs.length) (ht 
       rw [← this]
       congr 1
       omega
+
+/-! ### StiffPanelBay: offsets -/
+
+omit [Field K] in
+theorem startOf_cons_succ (a : Nat) (l : List Nat) (k : Nat) : startOf (a :: l) (k + 1) = a + startOf l k := by
+  simp [startOf]
+
+theorem startOf_append_left (a b : List Nat) (k : Nat) (hk : k ≤ a.length) : startOf (a ++ b) k = startOf a k := by
+  unfold startOf
+  rw [List.take_append_of_le_length hk]
+
+theorem startOf_append_right (a b : List Nat) (k : Nat) : startOf (a ++ b) (a.length + k) = a.sum + startOf b k := by
+  unfold startOf
+  rw [List.take_append, List.sum_append, List.take_of_length_le (by omega)]
+  simp
+
+def Bay.fsizes (b : Bay K) : List Nat := b.b2.map Blade2D.flangeSize
+def Bay.tsizes (b : Bay K) : List Nat := b.ts.map fun s => s.baseSize + s.flangeSize
+
+/-- start of the range of the flange of the `k`-th `BladeStiff2D` -/
+def Bay.off2 (b : Bay K) (k : Nat) : Nat := b.skinSize + startOf b.fsizes k
+/-- start of the range of the base of the `k`-th `TStiff2D` -/
+def Bay.offT (b : Bay K) (k : Nat) : Nat := b.skinSize + b.fsizes.sum + startOf b.tsizes k
+
+/-- sizes of all amplitude ranges of a bay, in order: skin, flanges of the 2-D blades (0 for a flange-less one),
+then base and flange of every T stiffener -/
+def Bay.rangeSizes (b : Bay K) : List Nat :=
+  b.skinSize :: (b.fsizes ++ b.ts.flatMap fun s => [s.baseSize, s.flangeSize])
+
+theorem blade2dLoop_eq (kind : MatKind) (l : List (Blade2D K)) (r c : Nat) :
+    blade2dLoop kind l r c =
+      ((l.mapIdx fun k s => s.blocks kind (r + startOf (l.map Blade2D.flangeSize) k)
+          (c + startOf (l.map Blade2D.flangeSize) k)).flatten,
+        r + (l.map Blade2D.flangeSize).sum, c + (l.map Blade2D.flangeSize).sum) := by
+  induction l generalizing r c with
+  | nil => simp [blade2dLoop]
+  | cons s t ih =>
+    rcases s with ⟨base, flange, css, csf, cff⟩
+    cases flange with
+    | none =>
+      simp only [blade2dLoop, ih, List.mapIdx_cons, List.flatten_cons, List.map_cons, Blade2D.flangeSize,
+        List.sum_cons, startOf_cons_succ, startOf_zero, Nat.add_zero, Nat.zero_add]
+    | some f =>
+      simp only [blade2dLoop, ih, List.mapIdx_cons, List.flatten_cons, List.map_cons, Blade2D.flangeSize,
+        List.sum_cons, startOf_cons_succ, startOf_zero, Nat.add_zero, Nat.add_assoc]
+
+theorem tLoop_eq (kind : MatKind) (l : List (TStiff K)) (r c : Nat) :
+    tLoop kind l r c =
+      ((l.mapIdx fun k s => s.blocks kind (r + startOf (l.map fun s => s.baseSize + s.flangeSize) k)
+          (c + startOf (l.map fun s => s.baseSize + s.flangeSize) k)).flatten,
+        r + (l.map fun s => s.baseSize + s.flangeSize).sum,
+        c + (l.map fun s => s.baseSize + s.flangeSize).sum) := by
+  induction l generalizing r c with
+  | nil => simp [tLoop]
+  | cons s t ih =>
+    simp only [tLoop, ih, List.mapIdx_cons, List.flatten_cons, List.map_cons,
+      List.sum_cons, startOf_cons_succ, startOf_zero, Nat.add_zero, Nat.add_assoc]
+
+theorem bay_offsets_correct_aux (kind : MatKind) (b : Bay K) :
+    bayBlocks kind b =
+      (b.skins.map fun c => (⟨tagPanel, 0, 0, c⟩ : Block K)) ++
+      (b.b1.flatMap fun s => s.blocks kind 0 0) ++
+      (b.b2.mapIdx fun k s => s.blocks kind (b.off2 k) (b.off2 k)).flatten ++
+      (b.ts.mapIdx fun k s => s.blocks kind (b.offT k) (b.offT k)).flatten := by
+  unfold bayBlocks
+  simp only [blade2dLoop_eq, tLoop_eq]
+  rfl
+
+theorem startOf_pairs (ts : List (TStiff K)) (k : Nat) (hk : k ≤ ts.length) :
+    startOf (ts.flatMap fun s => [s.baseSize, s.flangeSize]) (2 * k) =
+      startOf (ts.map fun s => s.baseSize + s.flangeSize) k := by
+  induction ts generalizing k with
+  | nil => simp [startOf]
+  | cons s t ih =>
+    cases k with
+    | zero => simp [startOf]
+    | succ k =>
+      have : 2 * (k + 1) = (2 * k + 1) + 1 := by ring
+      rw [this]
+      simp only [List.flatMap_cons, List.cons_append, List.nil_append, List.map_cons, startOf_cons_succ]
+      rw [ih k (by simpa using hk)]
+      omega
+
+theorem startOf_pairs_succ (ts : List (TStiff K)) (k : Nat) (hk : k < ts.length) :
+    startOf (ts.flatMap fun s => [s.baseSize, s.flangeSize]) (2 * k + 1) =
+      startOf (ts.map fun s => s.baseSize + s.flangeSize) k + (ts[k]).baseSize := by
+  induction ts generalizing k with
+  | nil => simp at hk
+  | cons s t ih =>
+    cases k with
+    | zero => simp [startOf]
+    | succ k =>
+      have : 2 * (k + 1) + 1 = ((2 * k + 1) + 1) + 1 := by ring
+      rw [this]
+      simp only [List.flatMap_cons, List.cons_append, List.nil_append, List.map_cons, startOf_cons_succ,
+        List.getElem_cons_succ]
+      rw [ih k (by simpa using hk)]
+      omega
+
+/-- the offsets used by `calc_k0/kG0/kM` are the starts of the bay's ranges -/
+theorem bay_offsets_are_range_starts_aux (b : Bay K) :
+    (∀ k, k ≤ b.b2.length → b.off2 k = startOf b.rangeSizes (1 + k)) ∧
+    (∀ k, k ≤ b.ts.length → b.offT k = startOf b.rangeSizes (1 + b.b2.length + 2 * k)) ∧
+    (∀ k (hk : k < b.ts.length),
+      b.offT k + (b.ts[k]).baseSize = startOf b.rangeSizes (1 + b.b2.length + 2 * k + 1)) := by
+  have hfl : b.fsizes.length = b.b2.length := by simp [Bay.fsizes]
+  refine ⟨?_, ?_, ?_⟩
+  · intro k hk
+    unfold Bay.off2 Bay.rangeSizes
+    rw [Nat.add_comm 1 k, startOf_cons_succ, startOf_append_left _ _ _ (by omega)]
+  · intro k hk
+    unfold Bay.offT Bay.rangeSizes
+    have : 1 + b.b2.length + 2 * k = (b.fsizes.length + 2 * k) + 1 := by omega
+    rw [this, startOf_cons_succ, startOf_append_right, startOf_pairs _ _ hk]
+    unfold Bay.tsizes
+    omega
+  · intro k hk
+    unfold Bay.offT Bay.rangeSizes
+    have : 1 + b.b2.length + 2 * k + 1 = (b.fsizes.length + (2 * k + 1)) + 1 := by omega
+    rw [this, startOf_cons_succ, startOf_append_right, startOf_pairs_succ _ _ hk]
+    unfold Bay.tsizes
+    omega
+
+theorem fold2_size (l : List (Blade2D K)) (z : Nat) (h : ∀ s ∈ l, s.flange ≠ none) :
+    l.foldl (fun acc s => acc.bind fun z => s.flange.map fun f => z + f.1) (some z) =
+      some (z + (l.map Blade2D.flangeSize).sum) := by
+  induction l generalizing z with
+  | nil => simp
+  | cons s t ih =>
+    have hs := h s List.mem_cons_self
+    rcases s with ⟨base, flange, css, csf, cff⟩
+    cases flange with
+    | none => exact absurd rfl hs
+    | some f =>
+      simp only [List.foldl_cons, Option.bind_some, Option.map_some, List.map_cons, List.sum_cons,
+        Blade2D.flangeSize]
+      rw [ih _ (fun x hx => h x (List.mem_cons_of_mem _ hx))]
+      simp [Nat.add_assoc]
+
+theorem foldT_size (l : List (TStiff K)) (z : Nat) :
+    l.foldl (fun acc s => acc.map fun z => z + (s.baseSize + s.flangeSize)) (some z) =
+      some (z + (l.map fun s => s.baseSize + s.flangeSize).sum) := by
+  induction l generalizing z with
+  | nil => simp
+  | cons s t ih =>
+    simp only [List.foldl_cons, Option.map_some, List.map_cons, List.sum_cons]
+    rw [ih]
+    simp [Nat.add_assoc]
+
+theorem foldT_none (l : List (TStiff K)) :
+    l.foldl (fun acc s => acc.map fun z => z + (s.baseSize + s.flangeSize)) (none : Option Nat) = none := by
+  induction l with
+  | nil => rfl
+  | cons s t ih => simpa using ih
+
+theorem fold2_none (l : List (Blade2D K)) :
+    l.foldl (fun acc s => acc.bind fun z => s.flange.map fun f => z + f.1) (none : Option Nat) = none := by
+  induction l with
+  | nil => rfl
+  | cons s t ih => simpa using ih
+
+theorem fold2_none_of_mem (l : List (Blade2D K)) (z : Nat) (h : ∃ s ∈ l, s.flange = none) :
+    l.foldl (fun acc s => acc.bind fun z => s.flange.map fun f => z + f.1) (some z) = none := by
+  induction l generalizing z with
+  | nil => simp at h
+  | cons s t ih =>
+    rcases s with ⟨base, flange, css, csf, cff⟩
+    cases flange with
+    | none => simp only [List.foldl_cons, Option.bind_some, Option.map_none]; exact fold2_none t
+    | some f =>
+      simp only [List.foldl_cons, Option.bind_some, Option.map_some]
+      apply ih
+      obtain ⟨s, hs, hn⟩ := h
+      rcases List.mem_cons.mp hs with rfl | hs
+      · simp at hn
+      · exact ⟨s, hs, hn⟩
+
+theorem pairs_sum (ts : List (TStiff K)) :
+    (ts.flatMap fun s => [s.baseSize, s.flangeSize]).sum = (ts.map fun s => s.baseSize + s.flangeSize).sum := by
+  induction ts with
+  | nil => rfl
+  | cons s t ih => simp [List.flatMap_cons, ih, Nat.add_assoc]
+
+theorem bay_size_eq_sum_partial_aux (b : Bay K) (h : ∀ s ∈ b.b2, s.flange ≠ none) :
+    bayGetSize b = some b.rangeSizes.sum := by
+  unfold bayGetSize
+  simp only
+  rw [fold2_size _ _ h, foldT_size]
+  unfold Bay.rangeSizes Bay.fsizes
+  rw [List.sum_cons, List.sum_append, pairs_sum]
+  simp [Nat.add_assoc]
+
+theorem bay_size_raises_aux (b : Bay K) (h : ∃ s ∈ b.b2, s.flange = none) : bayGetSize b = none := by
+  unfold bayGetSize
+  simp only
+  rw [fold2_none_of_mem _ _ h]
+  exact foldT_none _
+
+/-! ### bay: placement, symmetry, skin partition, stiffener contribution -/
+
+theorem bay_eq_sum_of_placed_aux (kind : MatKind) (b : Bay K) (i j : Nat) :
+    toFun (bayCalc kind b) i j =
+      if i ≤ j then ((bayBlocks kind b).map fun bl => bl.fn i j).sum
+      else ((bayBlocks kind b).map fun bl => bl.fn j i).sum := by
+  unfold bayCalc finalize
+  rw [toFun_makeSymmetric, toFun_placeAll, toFun_placeAll]
+
+theorem bay_symmetric_aux (kind : MatKind) (b : Bay K) (i j : Nat) :
+    toFun (bayCalc kind b) i j = toFun (bayCalc kind b) j i :=
+  toFun_makeSymmetric_symm _ _ _
+
+theorem sum_map_append {α : Type} (f : α → K) (a b : List α) :
+    ((a ++ b).map f).sum = (a.map f).sum + (b.map f).sum := by simp
+
+theorem bayBlocks_sum (kind : MatKind) (b : Bay K) (i j : Nat) :
+    ((bayBlocks kind b).map fun bl => bl.fn i j).sum =
+      (b.skins.map fun c => toFun c i j).sum +
+      ((b.b1.flatMap fun s => s.blocks kind 0 0).map fun bl => bl.fn i j).sum +
+      (((b.b2.mapIdx fun k s => s.blocks kind (b.off2 k) (b.off2 k)).flatten).map fun bl => bl.fn i j).sum +
+      (((b.ts.mapIdx fun k s => s.blocks kind (b.offT k) (b.offT k)).flatten).map fun bl => bl.fn i j).sum := by
+  rw [bay_offsets_correct_aux, sum_map_append, sum_map_append, sum_map_append, List.map_map]
+  congr 3
+
+/-- the skin panels enter the global matrix only through the sum of their matrices -/
+theorem bayCalc_congr_skins (kind : MatKind) (b b' : Bay K)
+    (h1 : b'.num = b.num) (h2 : b'.m = b.m) (h3 : b'.n = b.n) (h4 : b'.b1 = b.b1) (h5 : b'.b2 = b.b2)
+    (h6 : b'.ts = b.ts)
+    (hs : ∀ i j, (b'.skins.map fun c => toFun c i j).sum = (b.skins.map fun c => toFun c i j).sum)
+    (i j : Nat) : toFun (bayCalc kind b') i j = toFun (bayCalc kind b) i j := by
+  have hoff2 : b'.off2 = b.off2 := by
+    funext k; simp [Bay.off2, Bay.skinSize, Bay.fsizes, h1, h2, h3, h5]
+  have hoffT : b'.offT = b.offT := by
+    funext k; simp [Bay.offT, Bay.skinSize, Bay.fsizes, Bay.tsizes, h1, h2, h3, h5, h6]
+  rw [bay_eq_sum_of_placed_aux, bay_eq_sum_of_placed_aux, bayBlocks_sum, bayBlocks_sum, bayBlocks_sum,
+    bayBlocks_sum, hs, hs, h4, h5, h6, hoff2, hoffT]
+
+/-- matrices of the skin panels cut at `y0 < cuts… < yN`: `k y1 y2` is the kernel over `[y1, y2]` -/
+def cutSkins {Y : Type} (k : Y → Y → Coo K) : Y → List Y → List (Coo K)
+  | _, [] => []
+  | y, y' :: t => k y y' :: cutSkins k y' t
+
+theorem cutSkins_sum {Y : Type} (k : Y → Y → Coo K)
+    (hadd : ∀ y1 y2 y3 i j, toFun (k y1 y2) i j + toFun (k y2 y3) i j = toFun (k y1 y3) i j)
+    (y0 y1 : Y) (rest : List Y) (i j : Nat) :
+    ((cutSkins k y0 (y1 :: rest)).map fun c => toFun c i j).sum =
+      toFun (k y0 ((y1 :: rest).getLast (List.cons_ne_nil _ _))) i j := by
+  induction rest generalizing y0 y1 with
+  | nil => simp [cutSkins]
+  | cons y2 t ih =>
+    have : cutSkins k y0 (y1 :: y2 :: t) = k y0 y1 :: cutSkins k y1 (y2 :: t) := rfl
+    rw [this, List.map_cons, List.sum_cons, ih y1 y2, List.getLast_cons (List.cons_ne_nil _ _)]
+    exact hadd _ _ _ _ _
+
+theorem skin_split_invariant_aux {Y : Type} (kind : MatKind) (k : Y → Y → Coo K)
+    (hadd : ∀ y1 y2 y3 i j, toFun (k y1 y2) i j + toFun (k y2 y3) i j = toFun (k y1 y3) i j)
+    (b : Bay K) (y0 yN : Y) (cuts : List Y) (i j : Nat) :
+    toFun (bayCalc kind { b with skins := cutSkins k y0 (cuts ++ [yN]) }) i j =
+      toFun (bayCalc kind { b with skins := [k y0 yN] }) i j := by
+  apply bayCalc_congr_skins <;> try rfl
+  intro i j
+  cases hc : cuts ++ [yN] with
+  | nil => simp at hc
+  | cons y1 rest =>
+    rw [cutSkins_sum k hadd]
+    have : (y1 :: rest).getLast (List.cons_ne_nil _ _) = yN := by
+      simp only [← hc]; simp
+    rw [this]
+    simp
+
+theorem mapIdx_append_one {α β : Type} (f : Nat → α → β) (l : List α) (a : α) :
+    (l ++ [a]).mapIdx f = l.mapIdx f ++ [f l.length a] := by
+  rw [List.mapIdx_append]
+  simp
+
+/-- adding a `TStiff2D` (appended by `add_tstiff2d`) leaves every other range where it was and adds the finalised
+sum of its own blocks, written at the first free offset -/
+theorem add_tstiff_contribution_aux (kind : MatKind) (b : Bay K) (s : TStiff K) (i j : Nat) :
+    toFun (bayCalc kind { b with ts := b.ts ++ [s] }) i j =
+      toFun (bayCalc kind b) i j +
+        toFun (finalize (placeAll (s.blocks kind (b.offT b.ts.length) (b.offT b.ts.length)))) i j := by
+  have hoff2 : ({ b with ts := b.ts ++ [s] } : Bay K).off2 = b.off2 := rfl
+  have hoffT : ∀ k, k ≤ b.ts.length → ({ b with ts := b.ts ++ [s] } : Bay K).offT k = b.offT k := by
+    intro k hk
+    simp only [Bay.offT, Bay.tsizes, List.map_append]
+    rw [startOf_append_left _ _ _ (by simpa using hk)]
+    rfl
+  have hblocks : ∀ i j, ((bayBlocks kind { b with ts := b.ts ++ [s] }).map fun bl => bl.fn i j).sum =
+      ((bayBlocks kind b).map fun bl => bl.fn i j).sum +
+        ((s.blocks kind (b.offT b.ts.length) (b.offT b.ts.length)).map fun bl => bl.fn i j).sum := by
+    intro i j
+    rw [bayBlocks_sum, bayBlocks_sum, hoff2]
+    simp only
+    rw [mapIdx_append_one, List.flatten_append, sum_map_append, hoffT _ (le_refl _)]
+    have : (b.ts.mapIdx fun k s' => s'.blocks kind (({ b with ts := b.ts ++ [s] } : Bay K).offT k)
+        (({ b with ts := b.ts ++ [s] } : Bay K).offT k)) =
+        (b.ts.mapIdx fun k s' => s'.blocks kind (b.offT k) (b.offT k)) := by
+      apply List.ext_getElem
+      · simp
+      · intro k h1 h2
+        simp only [List.getElem_mapIdx]
+        rw [hoffT k (by simp at h1; omega)]
+    rw [this]
+    simp only [List.flatten_cons, List.flatten_nil, List.append_nil]
+    ring
+  unfold finalize
+  rw [bay_eq_sum_of_placed_aux, bay_eq_sum_of_placed_aux, toFun_makeSymmetric, toFun_placeAll, toFun_placeAll,
+    hblocks, hblocks]
+  split <;> rfl
+
+/-- adding a `BladeStiff1D` adds the finalised sum of its blocks inside the skin's range -/
+theorem add_blade1d_contribution_aux (kind : MatKind) (b : Bay K) (s : Blade1D K) (i j : Nat) :
+    toFun (bayCalc kind { b with b1 := b.b1 ++ [s] }) i j =
+      toFun (bayCalc kind b) i j + toFun (finalize (placeAll (s.blocks kind 0 0))) i j := by
+  have hblocks : ∀ i j, ((bayBlocks kind { b with b1 := b.b1 ++ [s] }).map fun bl => bl.fn i j).sum =
+      ((bayBlocks kind b).map fun bl => bl.fn i j).sum +
+        ((s.blocks kind 0 0).map fun bl => bl.fn i j).sum := by
+    intro i j
+    rw [bayBlocks_sum, bayBlocks_sum]
+    have h2 : ({ b with b1 := b.b1 ++ [s] } : Bay K).off2 = b.off2 := rfl
+    have hT : ({ b with b1 := b.b1 ++ [s] } : Bay K).offT = b.offT := rfl
+    rw [h2, hT]
+    simp only [List.flatMap_append, List.flatMap_cons, List.flatMap_nil, List.append_nil, sum_map_append]
+    ring
+  unfold finalize
+  rw [bay_eq_sum_of_placed_aux, bay_eq_sum_of_placed_aux, toFun_makeSymmetric, toFun_placeAll, toFun_placeAll,
+    hblocks, hblocks]
+  split <;> rfl
+
+/-- adding a `BladeStiff2D` to a bay without T stiffeners -/
+theorem add_blade2d_contribution_aux (kind : MatKind) (b : Bay K) (hts : b.ts = []) (s : Blade2D K) (i j : Nat) :
+    toFun (bayCalc kind { b with b2 := b.b2 ++ [s] }) i j =
+      toFun (bayCalc kind b) i j +
+        toFun (finalize (placeAll (s.blocks kind (b.off2 b.b2.length) (b.off2 b.b2.length)))) i j := by
+  have hoff2 : ∀ k, k ≤ b.b2.length → ({ b with b2 := b.b2 ++ [s] } : Bay K).off2 k = b.off2 k := by
+    intro k hk
+    simp only [Bay.off2, Bay.fsizes, List.map_append]
+    rw [startOf_append_left _ _ _ (by simpa using hk)]
+    rfl
+  have hblocks : ∀ i j, ((bayBlocks kind { b with b2 := b.b2 ++ [s] }).map fun bl => bl.fn i j).sum =
+      ((bayBlocks kind b).map fun bl => bl.fn i j).sum +
+        ((s.blocks kind (b.off2 b.b2.length) (b.off2 b.b2.length)).map fun bl => bl.fn i j).sum := by
+    intro i j
+    rw [bayBlocks_sum, bayBlocks_sum]
+    simp only
+    rw [mapIdx_append_one, List.flatten_append, sum_map_append, hoff2 _ (le_refl _)]
+    have : (b.b2.mapIdx fun k s' => s'.blocks kind (({ b with b2 := b.b2 ++ [s] } : Bay K).off2 k)
+        (({ b with b2 := b.b2 ++ [s] } : Bay K).off2 k)) =
+        (b.b2.mapIdx fun k s' => s'.blocks kind (b.off2 k) (b.off2 k)) := by
+      apply List.ext_getElem
+      · simp
+      · intro k h1 h2
+        simp only [List.getElem_mapIdx]
+        rw [hoff2 k (by simp at h1; omega)]
+    rw [this]
+    simp only [hts, List.mapIdx_nil, List.flatten_nil, List.map_nil, List.sum_nil, add_zero, List.flatten_cons,
+      List.append_nil]
+    ring
+  unfold finalize
+  rw [bay_eq_sum_of_placed_aux, bay_eq_sum_of_placed_aux, toFun_makeSymmetric, toFun_placeAll, toFun_placeAll,
+    hblocks, hblocks]
+  split <;> rfl
+
+/-! ### bay force vector -/
+
+theorem foldF2 (l : List (Option (List K))) (z : List K) (h : ∀ s ∈ l, s ≠ none) :
+    l.foldl (fun acc s => acc.bind fun z => s.map fun f => z ++ f) (some z) =
+      some (z ++ (l.filterMap id).flatten) := by
+  induction l generalizing z with
+  | nil => simp
+  | cons s t ih =>
+    have hs := h s List.mem_cons_self
+    cases s with
+    | none => exact absurd rfl hs
+    | some f =>
+      simp only [List.foldl_cons, Option.bind_some, Option.map_some]
+      rw [ih _ (fun x hx => h x (List.mem_cons_of_mem _ hx))]
+      simp
+
+theorem foldFT (l : List (List K × List K)) (z : List K) :
+    l.foldl (fun acc s => acc.map fun z => z ++ s.1 ++ s.2) (some z) =
+      some (z ++ (l.flatMap fun s => [s.1, s.2]).flatten) := by
+  induction l generalizing z with
+  | nil => simp
+  | cons s t ih =>
+    simp only [List.foldl_cons, Option.map_some]
+    rw [ih]
+    simp
+
+theorem bay_fext_concat_partial_aux (skin : List K) (b2 : List (Option (List K))) (ts : List (List K × List K))
+    (h : ∀ s ∈ b2, s ≠ none) :
+    bayFext skin b2 ts = some ((skin :: (b2.filterMap id ++ ts.flatMap fun s => [s.1, s.2])).flatten) := by
+  unfold bayFext
+  simp only
+  rw [foldF2 _ _ h, foldFT]
+  simp
 
 end Compmech.Asm
